@@ -151,8 +151,7 @@ inductive RawObs
 def invalidReq (fs : Facts) (acts : List SAct) (r : Req) : Bool :=
   match parseActionBody fs acts r with
   | .bad _ => true
-  | .ok act kw => !(act.ins.all fun a => match PyDict.get? kw a.name with
-                                           | some v => schemaOk fs a.var v | none => false)
+  | .ok act kw => !argsValid fs act kw
 
 /-- a request exactly as the library's client would have written it (no duplicate elements, the
     call element named after the action in the service's namespace, the header quoted) -/
